@@ -228,7 +228,7 @@ def check_output_gaps(sp, fin, recs, findings):
     n_checked = 0
     for rec in sp:
         cont = rec["t2"] == "NL_CONT"         # a backslash-newline is a chunk with a line break of its own
-        if rec["av"] == 0 or (rec["nl_count"] and not cont) or rec["next_comment"] or rec["t1"] in SKIP_T or rec["t2"] in SKIP_T \
+        if (rec["nl_count"] and not cont) or rec["next_comment"] or rec["t1"] in SKIP_T or rec["t2"] in SKIP_T \
                 or rec["t1"].startswith("COMMENT") or rec["t2"].startswith("COMMENT"):     # comments are placed by the comment rules (columns, alignment)
             continue
         i = by_pos.get((rec["l2"], rec["c2"], rec["t2"]))
@@ -243,6 +243,18 @@ def check_output_gaps(sp, fin, recs, findings):
         if pre[3]:              # did_newline: the chunk starts an output line, its column is the indenter's
             continue
         n_checked += 1
+        if rec["av"] == 0:
+            # Ignore keeps presence or absence as in the input: judged for two chunks that stood on one input line, in this order
+            b = fin[i]
+            if a["orig_line"] == b["orig_line"] and a["orig_line"] > 0 and 0 < a["orig_col"] < b["orig_col"] and a["orig_col_end"] > 0:
+                had = b["orig_col"] > a["orig_col_end"]
+                if had != (n > 0):
+                    cause = rec["rule"] if " from " in rec["rule"] else rec["rule"].split(" ")[0]
+                    findings.append(("written-gap|%s|ignore" % cause,
+                                     "pair '%s' '%s' (%d:%d), rule %s, decision ignore: the input had %s between them, %d blank(s) written"
+                                     % ("".join(map(chr, rec["text1"]))[:20], "".join(map(chr, rec["text2"]))[:20], rec["l1"], rec["c1"], rec["rule"],
+                                        "white space" if had else "nothing", n)))
+            continue
         want = max(1, rec["min_sp"])
         bad = (rec["av"] == 3 and n != want) or (rec["av"] == 2 and n != 0) or (rec["av"] == 1 and n < 1)
         if bad:
